@@ -52,6 +52,42 @@ Theorem C18_one_worker_no_steal : forall lease UP w tr,
 Proof. intros lease UP w tr H. exact (one_worker_no_steal lease UP w _ tr H (incl_refl _) pinit). Qed.
 Print Assumptions C18_one_worker_no_steal.
 
+(* GetPartIds is two reads: the outbox query (which pins the read transaction's snapshot of the
+   entries) and, later, the inner store's listing; flush steps (claim, tx-free replay, finalize,
+   heartbeat, crash, clock) of any number of workers may run in between.  With the coded order the
+   listing equals the committed set whenever its second read happens (no writer commits between
+   the two reads; no steal) ... *)
+Theorem C18_listing_two_reads_eq_committed : forall lease UP tr es0,
+  no_steal lease UP pinit (trace_workers tr) tr = true ->
+  quiet_listing lease UP pinit tr = true ->
+  listing (fst (run_p lease UP pinit tr)) = Some (LOutbox es0) ->
+  overlay_ids UP es0 (inner_parts (fst (run_p lease UP pinit tr))) =
+    filter (fun p => match spec_store (committed tr) p with Some _ => true | None => false end) UP.
+Proof. exact listing_eq_committed. Qed.
+Print Assumptions C18_listing_two_reads_eq_committed.
+
+(* ... and the order matters: inner listing first, outbox query second loses a committed put whose
+   flush (inner write + finalize) completes between the two reads, and resurrects a committed delete *)
+Definition c18_swapped_put : list pstep :=
+  [SCommit [PPutPart 1 7]; SIdsInnerFirst; SClaim 0; SReplay 0; SFinalize 0; SIdsOutboxSecond].
+Definition c18_swapped_del : list pstep :=
+  [SCommit [PPutPart 1 7]; SClaim 0; SReplay 0; SFinalize 0; SCommit [PDelPart 1];
+   SIdsInnerFirst; SClaim 0; SReplay 0; SFinalize 0; SIdsOutboxSecond].
+Example C18_swapped_order_loses_committed_put :
+  last (snd (run_p 2 [1%N] pinit c18_swapped_put)) PROk = PRIds [] /\
+  spec_store (committed c18_swapped_put) 1%N = Some 7%N.
+Proof. split; reflexivity. Qed.
+Example C18_swapped_order_resurrects_deleted_part :
+  last (snd (run_p 2 [1%N] pinit c18_swapped_del)) PROk = PRIds [1%N] /\
+  spec_store (committed c18_swapped_del) 1%N = None.
+Proof. split; reflexivity. Qed.
+(* the same schedules in the coded order *)
+Example C18_coded_order_same_schedules :
+  last (snd (run_p 2 [1%N] pinit [SCommit [PPutPart 1 7]; SIdsBegin; SClaim 0; SReplay 0; SFinalize 0; SIdsEnd])) PROk = PRIds [1%N] /\
+  last (snd (run_p 2 [1%N] pinit [SCommit [PPutPart 1 7]; SClaim 0; SReplay 0; SFinalize 0; SCommit [PDelPart 1];
+                                  SIdsBegin; SClaim 0; SReplay 0; SFinalize 0; SIdsEnd])) PROk = PRIds [].
+Proof. split; reflexivity. Qed.
+
 (* non-vacuity: the witness is a steal; a two-worker trace with crash + expiry that is not *)
 Example C18_ex_witness_steals : no_steal 2 [1%N] pinit (trace_workers c18_witness) c18_witness = false.
 Proof. reflexivity. Qed.
